@@ -191,7 +191,7 @@ func lifecycleOracle(c *Ctx, w *World) {
 			if rd.Extra["status"] == "success" {
 				ok := false
 				for _, cl := range calls {
-					if rtName != "" && cl.src == "rt:"+rtName && (cl.op == "next" || cl.op == "restorenext") && cl.callSeq < rd.Seq {
+					if rtName != "" && (cl.src == "rt:"+rtName || strings.HasPrefix(cl.src, "rt:"+rtName+"#") || strings.Contains(cl.src, "#rapi")) && (cl.op == "next" || cl.op == "restorenext") && cl.callSeq < rd.Seq {
 						ok = true
 					}
 				}
@@ -234,6 +234,9 @@ func lifecycleOracle(c *Ctx, w *World) {
 			c.Check(k == 1, "one_line_per_extension", "C15/duplicate-extension-line", "an extension has more than one status line in one init episode", n)
 		}
 		for b := range extExec {
+			if ep.report == 0 {
+				break // the episode was still open when the scenario ended: the status lines are emitted when it closes
+			}
 			c.Check(names[b] == 1, "one_line_per_extension", "C15/missing-extension-line", "a launched external extension has no status line in its init episode", b)
 		}
 		firstLine := int64(1 << 62)
